@@ -416,10 +416,16 @@ package bgp
 
 // ---------------------------------------------------------------------------------------------
 // AS_PATH length (C03 "shortest AS_PATH": a SEQUENCE counts its members, a SET counts 1, confederation segments 0)
-//@ props C03
+//@ props C03 C14
+// an AS_PATH segment as data: its type octet and its member count, whichever of the two Go types holds it
+//@ spec segType(p AsPathParamInterface) int = typeOf(p) == (*As4PathParam) ? int(p.(*As4PathParam).Type) : int(p.(*AsPathParam).Type)
+//@ spec segLen(p AsPathParamInterface) int = typeOf(p) == (*As4PathParam) ? len(p.(*As4PathParam).AS) : len(p.(*AsPathParam).AS)
+//@ spec segASLen(p AsPathParamInterface) int = segType(p) == 2 ? segLen(p) : (segType(p) == 1 ? 1 : 0)
+// a segment as the decoder accepts it (validateAsPathValueBytes: 1..255 members)
+//@ spec wfSeg(p AsPathParamInterface) bool = p != nil && (typeOf(p) == (*As4PathParam) || typeOf(p) == (*AsPathParam)) && (typeOf(p) == (*As4PathParam) ? p.(*As4PathParam) != nil : p.(*AsPathParam) != nil) && 1 <= segLen(p) && segLen(p) <= 255
 //@ interface AsPathParamInterface.ASLen
 //@   pure
-//@   ensures result >= 0
+//@   ensures result >= 0 && result == segASLen(self)
 //@ func (*AsPathParam).ASLen
 //@   pure
 //@   modifies nothing
@@ -429,12 +435,23 @@ package bgp
 //@   modifies nothing
 //@   ensures result == (a.Type == 2 ? len(a.AS) : (a.Type == 1 ? 1 : 0))
 
-//@ props C16 C03
+//@ props C16 C03 C14
 //@ interface AsPathParamInterface.GetType
 //@   pure
-// GetAS returns a freshly allocated list and changes nothing the caller can see
+//@   ensures int(result) == segType(self)
+// GetAS changes nothing the caller can see and returns as many members as the segment has
 //@ interface AsPathParamInterface.GetAS
 //@   modifies nothing
+//@   ensures len(result) == segLen(self)
+//@ props C14
+//@ func (*AsPathParam).GetAS
+//@   modifies nothing
+//@   loop 0 invariant len(nums) == __iter + 1 && __iter + 1 <= len(a.AS)
+//@   ensures len(result) == len(a.AS)
+//@ func NewAs4PathParam
+//@   inline
+//@ func NewAsPathParam
+//@   inline
 
 // ---------------------------------------------------------------------------------------------
 // OPEN validation (C07: "every invalid OPEN ... yields the NOTIFICATION code/subcode the RFCs prescribe";
